@@ -1,5 +1,6 @@
 import QV.C02.LemmasTop
 import QV.C02.LemmasDelay
+import QV.C02.LemmasWave
 /-!
 C02 lemmas, part 6 (core Lean only): the proved subset `provedKind` — dispatch of the per-kind lemmas, "prints
 on one line", "prints without error".
@@ -10,8 +11,11 @@ open QV QV.Tok QV.Ast QV.Parse QV.Print QV.ExprPrint QV.ExprRoundTrip
 /-- the per-kind round-trip lemmas, dispatched: every `Parsed` instruction of a proved kind round-trips to
 itself at every depth budget -/
 theorem rt_of_provedKind (F : NumFmt) (d : Nat) (i : Instruction) (hp : parsedInstr i = true)
-    (hk : provedKind i = true) (hn : numTokInstr F i = true) (hd : (toks F i).length ≤ d) : RT F d i i := by
+    (hk : provedKind i = true) (hn : numTokInstr F i = true) (hd : (toks F i).length ≤ d) :
+    RT F d i (canonInstr i) := by
   cases i with
+  | capture a => exact rt_capture F d a hp hn hd
+  | pulse a => exact rt_pulse F d a hp hn hd
   | arithmetic a => exact rt_arithmetic F d a hp
   | binaryLogic a => exact rt_binaryLogic F d a hp
   | comparison a => exact rt_comparison F d a hp
@@ -138,6 +142,29 @@ theorem nl_sepBy (xs : List (List Token)) (h : ∀ x ∈ xs, Token.newLine ∉ x
       simp only [sepBy, List.mem_append, not_or]
       exact ⟨⟨h x (by simp), by simp⟩, ih (fun z hz => h z (by simp [hz]))⟩
 
+theorem nl_slashNameAux (acc cs : List Char) : Token.newLine ∉ slashNameAux acc cs := by
+  induction cs generalizing acc with
+  | nil => simp [slashNameAux]
+  | cons c cs ih =>
+    simp only [slashNameAux]
+    split
+    · simp [ih]
+    · exact ih _
+
+theorem nl_invocation (F : NumFmt) (w : WaveformInvocation)
+    (hn : (w.parameters.all fun kv => numTokOk F kv.2) = true) : Token.newLine ∉ invocationToks F w := by
+  simp only [invocationToks, slashNameToks, List.mem_append, not_or]
+  refine ⟨nl_slashNameAux _ _, ?_⟩
+  split
+  · simp
+  · simp only [List.mem_cons, List.mem_append, not_or]
+    refine ⟨by simp, nl_sepBy _ ?_, by simp⟩
+    intro x hx
+    simp only [List.mem_map] at hx
+    obtain ⟨kv, hkv, rfl⟩ := hx
+    have := nl_printTop F kv.2 (List.all_eq_true.mp hn kv (mem_sortKV.mp hkv))
+    simp [identTok, this]
+
 theorem nl_params (F : NumFmt) (ps : List PExpr) (h : ps.all (numTokOk F) = true) :
     Token.newLine ∉ paramsToks F ps := by
   unfold paramsToks
@@ -173,6 +200,14 @@ theorem noNL_of_provedKind (F : NumFmt) (i : Instruction) (hk : provedKind i = t
     simp only [numTokInstr] at hn
     by_cases hb : a.blocking = true <;>
       simp [toks, cmd, hb, nl_frame, nl_printTop F _ hn, nl_memRefToks]
+  | capture a =>
+    simp only [numTokInstr] at hn
+    by_cases hb : a.blocking = true <;>
+      simp [toks, cmd, hb, nl_frame, nl_invocation F _ hn, nl_memRefToks]
+  | pulse a =>
+    simp only [numTokInstr] at hn
+    by_cases hb : a.blocking = true <;>
+      simp [toks, cmd, hb, nl_frame, nl_invocation F _ hn]
   | declaration a =>
     obtain ⟨name, ⟨ty, len⟩, sharing⟩ := a
     have h1 : ¬ Token.newLine = scalarTok ty := fun h => nl_scalar ty h.symm
@@ -248,6 +283,10 @@ theorem firstErr_none_of_provedKind (i : Instruction) (hp : parsedInstr i = true
     simp only [parsedInstr, frameOk, Bool.and_eq_true] at hp
     simp [firstErr, frameErr, firstSome, qubitsErr_none _ hp.1.2, qubitsErr_none _ hp.2.2]
   | delay a => simp only [parsedInstr, Bool.and_eq_true] at hp; simp [firstErr, qubitsErr_none _ hp.2]
+  | capture a =>
+    simp only [parsedInstr, frameOk, Bool.and_eq_true] at hp; simp [firstErr, frameErr, qubitsErr_none _ hp.1.2]
+  | pulse a =>
+    simp only [parsedInstr, frameOk, Bool.and_eq_true] at hp; simp [firstErr, frameErr, qubitsErr_none _ hp.1.2]
   | rawCapture a =>
     simp only [parsedInstr, frameOk, Bool.and_eq_true] at hp; simp [firstErr, frameErr, qubitsErr_none _ hp.1.2]
   | _ => first | rfl | (simp [provedKind] at hk)
@@ -270,5 +309,50 @@ theorem firstErrList_none (L : List Instruction) (h : ∀ i ∈ L, firstErr i = 
   | nil => rfl
   | cons i L ih =>
     simp [firstErrList, firstSome, h i (by simp), ih (fun j hj => h j (by simp [hj]))]
+
+/-- the canonical form prints like the original (the printer sorts anyway) -/
+theorem toks_canonInstr (F : NumFmt) (i : Instruction) (hp : parsedInstr i = true) (hk : provedKind i = true) :
+    toks F (canonInstr i) = toks F i := by
+  have hinv : ∀ w : WaveformInvocation, invocationOk w = true →
+      invocationToks F (canonInvocation w) = invocationToks F w := by
+    intro w hw
+    simp only [invocationOk, Bool.and_eq_true, distinctKeys, decide_eq_true_eq] at hw
+    have hidem := sortKV_idem w.parameters hw.1.2
+    have hemp : (sortKV w.parameters).isEmpty = w.parameters.isEmpty := by
+      cases hps : w.parameters with
+      | nil => rfl
+      | cons x xs =>
+        have : x ∈ sortKV (x :: xs) := mem_sortKV.mpr (by simp)
+        cases hs : sortKV (x :: xs) with
+        | nil => rw [hs] at this; simp at this
+        | cons a b => rfl
+    simp only [invocationToks, canonInvocation, hidem, hemp]
+  cases i with
+  | capture c =>
+    simp only [parsedInstr, Bool.and_eq_true] at hp
+    simp [canonInstr, toks, hinv _ hp.2]
+  | pulse c =>
+    simp only [parsedInstr, Bool.and_eq_true] at hp
+    simp [canonInstr, toks, hinv _ hp.2]
+  | calibrationDefinition _ _ => simp [provedKind] at hk
+  | measureCalibrationDefinition _ _ => simp [provedKind] at hk
+  | circuitDefinition _ _ _ _ => simp [provedKind] at hk
+  | _ => simp [canonInstr]
+
+theorem firstErr_canonInstr (i : Instruction) (hk : provedKind i = true) : firstErr (canonInstr i) = firstErr i := by
+  cases i with
+  | calibrationDefinition _ _ => simp [provedKind] at hk
+  | measureCalibrationDefinition _ _ => simp [provedKind] at hk
+  | circuitDefinition _ _ _ _ => simp [provedKind] at hk
+  | _ => simp [canonInstr, firstErr, canonInvocation]
+
+theorem programRaw_map_canon (F : NumFmt) (L : List Instruction) (hp : ∀ i ∈ L, parsedInstr i = true)
+    (hk : ∀ i ∈ L, provedKind i = true) : programRaw F (L.map canonInstr) = programRaw F L := by
+  induction L with
+  | nil => rfl
+  | cons i L ih =>
+    simp only [programRaw, List.map_cons, List.flatMap_cons] at ih ⊢
+    rw [toks_canonInstr F i (hp i (by simp)) (hk i (by simp)),
+      ih (fun j hj => hp j (by simp [hj])) (fun j hj => hk j (by simp [hj]))]
 
 end QV.C02
